@@ -233,3 +233,55 @@ FAMILIES = [
            theorem='C09_sampling_SSH, C09_sampling_zero_fill, C09_sampling_gram_mask, C09_sampling_mask_01, C09_matrix'),
     Family('pca_wavelet', gen_pca_wav, impl_pca_wav, None, '', None, oracle_pca_wav, descr=C01.descr, theorem='(implementation-level, numpy/pywt reference)'),
 ]
+
+
+# ---- added after seeded change C09-b1: constructing an operator must not change the caller's encoding matrix -------------
+def _gen_shared_enc(rng, tier):
+    out = []
+    for i in range(6 if tier == 'quick' else 60):
+        out.append({'enc': [rng.choice([1, 3]), rng.randint(5, 8), rng.randint(3, 5)], 'n_irregular': rng.randint(3, 4), 'seed': rng.randrange(10 ** 6),
+                    'first': ['irregular_ky', 'singleton_kz', 'fourier_partial'][i % 3]})
+    return out
+
+
+def _impl_shared_enc(c):
+    from mrpro.data import KTrajectory, SpatialDimension
+    from mrpro.operators import CartesianSamplingOp, FourierOp
+    nz, ny, nx = c['enc']
+    enc = SpatialDimension(nz, ny, nx)
+    f = lambda v, shape: torch.tensor(v, dtype=torch.float64).reshape(shape)  # noqa: E731
+    full = lambda n: [i - n // 2 for i in range(n)]  # noqa: E731
+    g = np.random.default_rng(c['seed'])
+    irregular = sorted(set((g.integers(-(ny // 2) * 4, (ny - ny // 2 - 1) * 4, c['n_irregular']) / 4 + 0.125).tolist()))
+    if c['first'] == 'irregular_ky':
+        t1 = KTrajectory(f(full(nz), (1, -1, 1, 1)), f(irregular, (1, 1, -1, 1)), f(full(nx), (1, 1, 1, -1)), repeat_detection_tolerance=None)
+        CartesianSamplingOp(enc, t1)
+    elif c['first'] == 'singleton_kz':
+        t1 = KTrajectory(f([0], (1, 1, 1, 1)), f(full(ny), (1, 1, -1, 1)), f(full(nx), (1, 1, 1, -1)), repeat_detection_tolerance=None)
+        CartesianSamplingOp(enc, t1)
+    else:
+        t1 = KTrajectory(f([0], (1, 1, 1, 1)), f(irregular, (1, 1, -1, 1)), f(full(nx), (1, 1, 1, -1)), repeat_detection_tolerance=None)
+        FourierOp(SpatialDimension(1, ny, nx), enc, t1)
+    after_first = [int(enc.z), int(enc.y), int(enc.x)]
+    # a second, fully Cartesian operator built from the SAME encoding_matrix object
+    ky2 = full(ny)[::-1]
+    t2 = KTrajectory(f(full(nz), (1, -1, 1, 1)), f(ky2, (1, 1, -1, 1)), f(full(nx), (1, 1, 1, -1)), repeat_detection_tolerance=None)
+    op2 = CartesianSamplingOp(enc, t2)
+    x = torch.arange(nz * ny * nx, dtype=torch.float64).reshape(1, 1, nz, ny, nx)
+    (y,) = op2(x)
+    ref = x[..., list(range(nz)), :, :][..., [k + ny // 2 for k in ky2], :]
+    return {'enc_after': after_first, 'second_ok': bool(torch.equal(y, ref)), 'yshape': list(y.shape)}
+
+
+def _oracle_shared_enc(c, o):
+    if isinstance(o, dict) and 'raises' in o:
+        return f'building two operators from one encoding_matrix raised {o}'
+    if o['enc_after'] != c['enc']:
+        return f'constructing an operator ({c["first"]}) changed the caller\'s encoding_matrix from {c["enc"]} to {o["enc_after"]}'
+    if not o['second_ok']:
+        return 'a Cartesian sampling operator built from an encoding_matrix that was used before does not pick the documented grid values'
+    return None
+
+
+FAMILIES.append(Family('shared_encoding_matrix', _gen_shared_enc, _impl_shared_enc, None, '', None, _oracle_shared_enc,
+                       theorem='(implementation-level: the documented action depends on the arguments only)'))
